@@ -23,7 +23,7 @@ from . import c01, c14
 
 PROPERTY = "C15"
 LEVEL = "exploration"
-QUICK_RUNS = 3000
+QUICK_RUNS = 6000
 THOROUGH_RUNS = 80_000
 QUICK_BUDGET_S = 100
 BATCH = 20
@@ -62,7 +62,7 @@ def gen(seed, tier):
         fail = {"runs": sorted(r.sample([str(i) for i in range(n_runs)], k)), "ignore_errors": r.random() < 0.6}
     return {"spec": {"run_id": "0", "nodes": nodes}, "target": targets[0], "targets": targets,
             "runs": sorted(runs), "order": r.sample(sorted(runs), n_runs),
-            "workers": r.randint(1, 8 if big else 5), "warm": r.random() < 0.4,
+            "workers": r.randint(1, 8 if big else 7), "warm": r.random() < 0.4,
             "api": r.choice(["get_array", "get_array", "get_df", "make"]),
             "fail": fail, "q": r.choice([0.01, 0.05, 0.2]),
             "cfg": {"processor": r.choice(["single_thread", "single_thread", "threaded_mailbox"]), "max_workers": 1,
